@@ -181,6 +181,28 @@ def persistent_state(ck, rule):
                             tgt = t.value
                 if isinstance(tgt, ast.Attribute) and isinstance(tgt.value, ast.Name) and tgt.value.id == m.self_name:
                     writes.append((cls, mangle(tgt.attr, cls.name), m, n))
+    # module-level objects written in worker-reachable code are worker-persistent state as well
+    from .c10 import _is_module_level
+    for f in fns:
+        if f.qualname not in wreach or f.is_lambda:
+            continue
+        for node in ast.walk(f.node):
+            tgts = node.targets if isinstance(node, ast.Assign) else ([node.target] if isinstance(node, (ast.AugAssign, ast.NamedExpr)) else [])
+            name = None
+            for tg in tgts:
+                for t in ast.walk(tg):
+                    if isinstance(t, ast.Subscript) and isinstance(t.value, ast.Name) and _is_module_level(f, t.value.id):
+                        name = t.value.id
+            if isinstance(node, ast.Call) and isinstance(node.func, ast.Attribute) and node.func.attr in E.MUTATORS \
+                    and isinstance(node.func.value, ast.Name) and _is_module_level(f, node.func.value.id):
+                name = node.func.value.id
+            if name:
+                reads = [x for g in fns if g.module is f.module and not g.is_lambda for x in ast.walk(g.node)
+                         if isinstance(x, ast.Name) and x.id == name and isinstance(x.ctx, ast.Load)]
+                ck.violation(rule, f"{f.module.name.split('.')[-1]}.{name}@{short(f)}", where(f, node),
+                             f"module-level object `{name}` is written in worker-reachable code ({len(reads)} read(s) in the module): "
+                             f"per-process state that outlives a query - results depend on which queries a worker saw before",
+                             found=ast.unparse(node)[:140], required="no worker-persistent state that is read back")
     state: Dict[Tuple[str, str], list] = {}
     for cls, attr, m, stmt in writes:
         state.setdefault((cls.qualname, attr), []).append((cls, m, stmt))
